@@ -6,6 +6,7 @@ Driver part for C27 (PD allocator).  Ops:
                                      → parked=<id>,<ts> | blocked
   pd.save <tid>                      let the parked save of <tid> proceed and the request reply
                                      → <fresh|dup>:reply=<first>,<count> ckpt=<id>,<ts>[ next=<tid>:<id>,<ts>]
+  pd.renamefail <n>                  the next n renames onto PD_STATE.json fail (real LocalStore on a vfs.FaultFS); reset by restart
   pd.savefail <tid>                  the parked checkpoint write fails (storage error): the request answers with an error
                                      → fresh:error ckpt=<id>,<ts> cur=<idCounter>,<tsCounter>[ next=…]
   pd.restart                         kill the process, restart from PD_STATE.json
@@ -25,6 +26,7 @@ structure DSt where
   s : St := initSt AllocCfg.good (fun _ => 1)
   waiters : List Nat := []          -- threads blocked on the persist mutex, FIFO
   live : List Nat := []             -- thread ids in use since the last restart
+  renameFail : Nat := 0             -- the next so many renames onto PD_STATE.json fail (storage fault)
 
 def setCfg (d : DSt) (kv : String) : Option DSt :=
   match kv.splitOn "=" with
@@ -34,7 +36,8 @@ def setCfg (d : DSt) (kv : String) : Option DSt :=
     | "pd.persistAfterReserve" => do let b ← boolOfString? v; pure { d with c := { d.c with persistAfterReserve := b } }
     | "pd.resolveBumps" => do let b ← boolOfString? v; pure { d with c := { d.c with resolveBumps := b } }
     | "pd.releasesOnPersistError" => do let b ← boolOfString? v; pure { d with c := { d.c with releasesOnError := b } }
-    | "pd.reserveTakesExactlyN" | "pd.replyFromReserve" => if v == "true" then some d else none
+    | "pd.reserveTakesExactlyN" | "pd.replyFromReserve" | "pd.saveStateAtomic" | "pd.storageBeforeServe" =>
+      if v == "true" then some d else none
     | "pd.allocatorMethods" => some d
     | "pd.reserveIsAtomicAdd" | "pd.saveAtomicReplace" | "pd.savesCurrentCounters" | "pd.startupResolves" =>
       -- assumptions of the model, shape-checked by the extractor; only the expected value is modelled
@@ -91,7 +94,7 @@ def step (d : DSt) (toks : List String) : DSt × String :=
     | some a, some b =>
       let start : Kind → Nat := fun k => match k with | .id => a | .ts => b
       let s := initSt d.c start
-      ({ d with s := s, waiters := [], live := [] }, s!"starts={s.ctr .id + 1},{s.ctr .ts + 1}\t*")
+      ({ d with s := s, waiters := [], live := [], renameFail := 0 }, s!"starts={s.ctr .id + 1},{s.ctr .ts + 1}\t*")
     | _, _ => (d, "bad-op")
   | ["pd.req", t, k, n] =>
     match natOf? t, kindOf? k, natOf? n with
@@ -106,10 +109,27 @@ def step (d : DSt) (toks : List String) : DSt × String :=
         else
           ({ d with s := s2, live := tid :: d.live, waiters := d.waiters ++ [tid] }, "blocked\t*")
     | _, _, _ => (d, "bad-op")
+  | ["pd.renamefail", n] =>
+    match natOf? n with
+    | some n => ({ d with renameFail := n }, "ok\t*")
+    | none => (d, "bad-op")
   | ["pd.save", t] =>
     match natOf? t with
     | some tid =>
-      if pcOf d.s tid = some PC.save then
+      if pcOf d.s tid = some PC.save ∧ d.renameFail > 0 then
+        -- SaveAllocatorState writes the temporary file; the rename fails: the checkpoint stays as it was
+        let s0 := match PD.step d.c d.s (.failSave tid) with
+          | some s' => s'
+          | none => d.s
+        let s1 := runToEnd d.c s0 tid 8
+        let (s2, ws, nxt) := match d.waiters with
+          | w :: ws =>
+            let s2 := runToGate d.c s1 w 8
+            if pcOf s2 w = some PC.save then (s2, ws, s!" next={w}:{parkedStr s2 w}") else (s2, w :: ws, "")
+          | [] => (s1, [], "")
+        ({ d with s := s2, waiters := ws, renameFail := d.renameFail - 1 },
+          s!"fresh:error ckpt={s2.ck .id},{s2.ck .ts} cur={s2.ctr .id},{s2.ctr .ts}{nxt}\tfresh:*")
+      else if pcOf d.s tid = some PC.save then
         let before := d.s.replied
         let s1 := runToEnd d.c d.s tid 8
         let (rep, flag) := match s1.replied with
@@ -145,7 +165,7 @@ def step (d : DSt) (toks : List String) : DSt × String :=
   | ["pd.restart"] =>
     let s1 := restartSt d.c d.s
     let flag := if unsafeRestart s1 then "unsafe" else "safe"
-    ({ d with s := s1, waiters := [], live := [] }, s!"{flag}:starts={s1.ctr .id + 1},{s1.ctr .ts + 1}\tsafe:*")
+    ({ d with s := s1, waiters := [], live := [], renameFail := 0 }, s!"{flag}:starts={s1.ctr .id + 1},{s1.ctr .ts + 1}\tsafe:*")
   | ["pd.ckpt"] => (d, s!"ckpt={d.s.ck .id},{d.s.ck .ts}\t*")
   | ["pd.resolve", a, b, x, y] =>
     match natOf? a, natOf? b, natOf? x, natOf? y with
